@@ -34,6 +34,18 @@ def gen(rng, tier):
             grp = rng.choice(conf); A, B = rng.sample(grp, 2)
             A = [v for v in A if v != q]; B = [v for v in B if v != q]
             i = rng.randrange(len(ops) + 1); ops.insert(i, [2, A]); ops.insert(rng.randrange(i + 1, len(ops) + 1), [2, B])
+        if rng.random() < 0.15:
+            # firing sets that hold most of a larger graph and leave a DEEP complement (a tail whose far end has no edge into the set)
+            G = common.midsize_multigraph(rng) if rng.random() < 0.5 else common.mk_graph(rng.randint(7, 9), [], rng); n = G["n"]
+            if not G["edges"]: G = common.mk_graph_like(G, [[i, i + 1, rng.choice([1, 1, 2])] for i in range(n - 1)])
+            q = -1; ops = []; M = common.matrix(G)
+            for _ in range(rng.randint(2, 6)):
+                far = rng.randrange(n); comp = {far}; frontier = [far]
+                while len(comp) < rng.randint(2, 3) and frontier:
+                    v = frontier.pop(0)
+                    for w in range(n):
+                        if M[v][w] and w not in comp and len(comp) < 3: comp.add(w); frontier.append(w)
+                ops.append([2, [v for v in range(n) if v not in comp]]); ops.append([rng.choice([0, 1]), rng.randrange(n)])
         c = {"G": G, "D": common.random_divisor(rng, G, big=rng.random() < 0.2), "q": q, "ops": ops, "s": rng.randrange(1 << 30)}
         if n >= 2 and rng.random() < 0.25:      # the graph object gains an edge in the middle of the history: the divisor is older than part of its graph
             a, b = rng.sample(range(n), 2); c["grow"] = [rng.randrange(len(ops) + 1), a, b, rng.randint(1, 3)]
